@@ -1075,15 +1075,17 @@ class RedlineEngine:
         new_end = create_element("w:commentRangeEnd")
         create_attribute(new_end, "w:id", new_id)
 
+        # The reply's range sits next to the parent's range at both ends (as Word writes it), so that the
+        # two share their containers: inside a pending insertion both ends go or stay together.
+        parent_end.addnext(new_end)
+
         parent_refs = self.doc.element.xpath(f"//w:commentReference[@w:id='{parent_id}']")
-        insertion_point = parent_end
+        insertion_point = new_end
 
         if parent_refs:
             ref_el = parent_refs[0]
             if ref_el.getparent().tag == qn("w:r"):
                 insertion_point = ref_el.getparent()
-
-        insertion_point.addnext(new_end)
 
         ref_run = create_element("w:r")
         rPr = create_element("w:rPr")
@@ -1096,7 +1098,7 @@ class RedlineEngine:
         create_attribute(ref, "w:id", new_id)
         ref_run.append(ref)
 
-        new_end.addnext(ref_run)
+        insertion_point.addnext(ref_run)
 
     def accept_all_revisions(self):
         for ins in self.doc.element.xpath("//w:ins"):
